@@ -201,9 +201,16 @@ def unassigned(prog):
     return n, out
 
 
+def mask_misuse(prog):
+    from .generic import selection_mask_misuse
+    col = _Collector()
+    n = selection_mask_misuse(prog, col)
+    return n, col.hits
+
+
 def run(prog):
     res = {}
-    for name, fn in (('possibly-unassigned', unassigned), ('unstorable-attribute', unstorable), ('dead-store', dead_stores), ('one-sided-tolerance', one_sided_tolerances), ('discarded-optional', discarded_optionals),
+    for name, fn in (('selection-mask', mask_misuse), ('possibly-unassigned', unassigned), ('unstorable-attribute', unstorable), ('dead-store', dead_stores), ('one-sided-tolerance', one_sided_tolerances), ('discarded-optional', discarded_optionals),
                      ('loop / iteration', nonsense_loops), ('stale-alias', stale_aliases), ('refill-needs-empty', refills)):
         try:
             n, hits = fn(prog)
